@@ -30,3 +30,6 @@ func (s *Service) VerifKeygen() *keygen.Service { return s.keygen }
 
 // VerifConnections reads the open connection counter.
 func (s *Service) VerifConnections() int64 { return atomic.LoadInt64(&s.connections) }
+
+// VerifPresenceQueueCap returns the capacity of the presence notification queue.
+func (s *Service) VerifPresenceQueueCap() int { return s.presence.VerifQueueCap() }
